@@ -18,3 +18,7 @@ Fixpoint leqb {A} (e : A -> A -> bool) (l1 l2 : list A) : bool :=
 
 Definition check_timed (ops : list (mode * qstate * option qstate)) (outs : list outcome) (calls : list call) : bool :=
   let '(os, cs, f) := run false ops in leqb out_eqb os outs && leqb call_eqb cs calls && negb f.
+
+(* the receive that follows a crashed sender: `torn` unfinished messages, then the state q *)
+Definition check_recv_all (m : mode) (torn : nat) (q : qstate) (during : option qstate) (out : outcome) (calls : list call) : bool :=
+  let '(o, cs, f) := recv_all m torn q during false in out_eqb o out && leqb call_eqb cs calls && negb f.
